@@ -21,7 +21,7 @@
    dual rationals against the model's DS instance, and in double). *)
 From Coq Require Import Reals ZArith List Lra.
 From Coquelicot Require Import Coquelicot.
-From Manif Require Import Scalar RInst Dual DualProofs ParamBase ParamDual Mat Consts Group SO2 SE2 Run ParamRun ParamSE2 ParamChain SO3 SE3 Jr_SO3 Jr_SE3 ParamSO3.
+From Manif Require Import Scalar RInst Dual DualProofs ParamBase ParamDual Mat Consts Group SO2 SE2 Run ParamRun ParamSE2 ParamChain SO3 SE3 Jr_SO3 Jr_SE3 ParamSO3 ParamGen ParamJac SE23 SGal3 Jr_SE23 ParamSE23.
 Import ListNotations.
 Local Open Scope R_scope.
 
@@ -98,6 +98,10 @@ Theorem C12_chain_SE2_act eps tx ty c s px py dtx dty dc ds dpx dpy j : (j < 2)%
   is_derive (fun h => entry 0 (@run_op RS eps GSE2 OAct [] 0%Z (at_h h [[tx; ty; c; s]; [px; py]] [[dtx; dty; dc; ds]; [dpx; dpy]])) 0 j) 0
     (snd (entry (0, 0) (@run_op (DS RS) (eps, 0) GSE2 OAct [] 0%Z (seed [[tx; ty; c; s]; [px; py]] [[dtx; dty; dc; ds]; [dpx; dpy]])) 0 j)).
 Proof. exact (chain_SE2_act eps tx ty c s px py dtx dty dc ds dpx dpy j). Qed.
+Theorem C12_chain_SO2_log eps re im dre dim : (0 < re \/ (re < 0 /\ im <> 0)) ->
+  is_derive (fun h => entry 0 (@run_op RS eps GSO2 OLog [] 0%Z (at_h h [[re; im]] [[dre; dim]])) 0 0) 0
+    (snd (entry (0, 0) (@run_op (DS RS) (eps, 0) GSO2 OLog [] 0%Z (seed [[re; im]] [[dre; dim]])) 0 0)).
+Proof. exact (chain_SO2_log eps re im dre dim). Qed.
 Theorem C12_chain_SO3_exp eps x y z dx dy dz j : 0 < eps -> x * x + y * y + z * z <> eps -> (j < 4)%nat ->
   is_derive (fun h => entry 0 (@run_op RS eps GSO3 OExp [] 0%Z (at_h h [[x; y; z]] [[dx; dy; dz]])) 0 j) 0
     (snd (entry (0, 0) (@run_op (DS RS) (eps, 0) GSO3 OExp [] 0%Z (seed [[x; y; z]] [[dx; dy; dz]])) 0 j)).
@@ -111,6 +115,42 @@ Theorem C12_SE3_exp_dual_is_analytic_jacobian eps a b c x y z da db dc dx dy dz 
   snd (entry (0, 0) (@run_op (DS RS) (eps, 0) GSE3 OExp [] 0%Z (seed [[a; b; c; x; y; z]] [[da; db; dc; dx; dy; dz]])) 0 i) =
   nth i (@mvmul RS (so3_rotation RS (so3_exp RS eps [x; y; z])) (rjac_lin eps a b c x y z da db dc dx dy dz)) 0.
 Proof. exact (se3_exp_dual_is_analytic eps a b c x y z da db dc dx dy dz i). Qed.
+(* the chain for ANY function over the scalar record, given its abstraction theorem (one Paramcoq command) *)
+Theorem C12_chain_generic (f : forall F : Sc, K F -> list (K F) -> list (K F))
+  (f_R : forall (F1 F2 : Sc) (FR : Sc_R F1 F2) (e1 : K F1) (e2 : K F2), K_R F1 F2 FR e1 e2 ->
+     forall (a1 : list (K F1)) (a2 : list (K F2)), list_R (K F1) (K F2) (K_R F1 F2 FR) a1 a2 ->
+     list_R (K F1) (K F2) (K_R F1 F2 FR) (f F1 e1 a1) (f F2 e2 a2)) (eps : R) (x dx : list R) j :
+  locally 0 (fun h => f (FSh h) (fconst eps) (linev x dx) = f FS (fconst eps) (linev x dx)) ->
+  (j < length (f (DS RS) (eps, 0%R) (seedv x dx)))%nat ->
+  fok (nth j (f FS (fconst eps) (linev x dx)) (fconst 0)) ->
+  is_derive (fun h => nth j (f RS eps (atv h x dx)) 0) 0 (snd (nth j (f (DS RS) (eps, 0%R) (seedv x dx)) (0%R, 0%R))).
+Proof. exact (chain_generic f f_R eps x dx j). Qed.
+(* SO3: every entry of the rotation matrix of exp(t + eps d) over dual numbers has dual part (R(exp t) hat(rjac(t) d))_ij *)
+Theorem C12_SO3_exp_dual_is_analytic_jacobian eps x y z dx dy dz i j : 0 < eps -> eps < x * x + y * y + z * z -> (i < 3)%nat -> (j < 3)%nat ->
+  snd (nth (3 * i + j) (rotexp (DS RS) (eps, 0) (seedv [x; y; z] [dx; dy; dz])) (0, 0)) =
+  @mnth RS (@Mat.mmul RS (so3_rotation RS (so3_exp RS eps [x; y; z])) (@skew3 RS (rjac_d eps x y z dx dy dz))) i j.
+Proof. exact (so3_exp_dual_is_analytic eps x y z dx dy dz i j). Qed.
+(* SE2: the dual parts of exp(t + eps d) are X * hat(rjac(t) d) *)
+Theorem C12_SE2_exp_dual_is_analytic_jacobian eps x y th dx dy dth : 0 < eps -> eps < th * th ->
+  let u := @mvmul RS (se2_rjac RS eps [x; y; th]) [dx; dy; dth] in
+  let u1 := nth 0 u 0 in let u2 := nth 1 u 0 in let u3 := nth 2 u 0 in
+  let D j := snd (entry (0, 0) (@run_op (DS RS) (eps, 0) GSE2 OExp [] 0%Z (seed [[x; y; th]] [[dx; dy; dth]])) 0 j) in
+  D 0%nat = cos th * u1 - sin th * u2 /\ D 1%nat = sin th * u1 + cos th * u2 /\ D 2%nat = - sin th * u3 /\ D 3%nat = cos th * u3.
+Proof. exact (se2_exp_dual_is_analytic eps x y th dx dy dth). Qed.
+(* SE_2(3): translation and velocity of exp(t + eps d); SGal(3): the chain for all 11 coefficients of exp *)
+Theorem C12_SE23_exp_dual_is_analytic_jacobian eps a b c x y z d e f da db dc dx dy dz dd de df i : 0 < eps -> eps < x * x + y * y + z * z -> (i < 3)%nat ->
+  let t := [[a; b; c; x; y; z; d; e; f]] in let dt := [[da; db; dc; dx; dy; dz; dd; de; df]] in
+  let R := so3_rotation RS (so3_exp RS eps [x; y; z]) in
+  let u := rjac23 eps a b c x y z d e f da db dc dx dy dz dd de df in
+  snd (entry (0, 0) (@run_op (DS RS) (eps, 0) GSE23 OExp [] 0%Z (seed t dt)) 0 i) = nth i (@mvmul RS R (firstn 3 u)) 0 /\
+  snd (entry (0, 0) (@run_op (DS RS) (eps, 0) GSE23 OExp [] 0%Z (seed t dt)) 0 (7 + i)) = nth i (@mvmul RS R (skipn 6 u)) 0.
+Proof. exact (se23_exp_dual_is_analytic eps a b c x y z d e f da db dc dx dy dz dd de df i). Qed.
+Theorem C12_chain_SGal3_exp eps a b c d e f x y z tau da db dc dd de df dx dy dz dtau j : 0 < eps -> eps < x * x + y * y + z * z -> (j < 11)%nat ->
+  let t := [[a; b; c; d; e; f; x; y; z; tau]] in let dt := [[da; db; dc; dd; de; df; dx; dy; dz; dtau]] in
+  is_derive (fun h => entry 0 (@run_op RS eps GSGal3 OExp [] 0%Z (at_h h t dt)) 0 j) 0
+    (snd (entry (0, 0) (@run_op (DS RS) (eps, 0) GSGal3 OExp [] 0%Z (seed t dt)) 0 j)).
+Proof. exact (chain_SGal3_exp eps a b c d e f x y z tau da db dc dd de df dx dy dz dtau j). Qed.
+Print Assumptions C12_SO3_exp_dual_is_analytic_jacobian.
 Print Assumptions C12_SE3_exp_dual_is_analytic_jacobian.
 Print Assumptions C12_every_operation_dual_is_derivative.
 Print Assumptions C12_SE2_exp_dual_is_derivative.
